@@ -6,6 +6,10 @@ from ..real import hex6
 ID = "C06"
 STATEFUL = True     # some blocks keep a live object across lines
 LEAN_TARGETS = ["Cider.Props.C06", "Cider.Props.C02Tie", "Cider.Props.C05Tie"]
+OPTIONAL_TARGETS = ["Cider.Props.C06Src"]
+OPTIONAL_THEOREMS = {"Cider.Props.C06Src": ['Cider.C06Src.omegaChar_eq', 'Cider.C06Src.omegaSeqChar_eq', 'Cider.C06Src.omega_strings',
+                                           'Cider.C06Src.kappaX2Char_eq', 'Cider.C06Src.kappaX1Char_eq', 'Cider.C06Src.kappaX_patterns',
+                                           'Cider.C06Src.frames_eq']}
 P = "Cider.C06."
 THEOREMS = ["Cider.C02.gen_charge_eq_published", "Cider.C05.gen_omegaX_eq_published"] + [P + t for t in (
     "omega_eq_kappa_recode", "omega_eq_kappaX_PEDKR", "kappa_eq_kappaX_ED_KR", "recode_set_ext", "kappaX_member_order_case",
